@@ -10,6 +10,7 @@ mod conc;
 mod enc;
 mod level;
 mod out;
+mod queue;
 
 use enc::*;
 use std::io::BufRead;
@@ -51,6 +52,7 @@ fn main() {
         "ma" => cmd_ma(),
         "level" => level::run(&args[2]),
         "conc" => conc::run(&args[2]),
+        "queue" => queue::run(&args[2]),
         other => {
             eprintln!("unknown subcommand {other}");
             std::process::exit(2);
